@@ -254,6 +254,102 @@ def keep_socket_case(item):
     return rec
 
 
+RESUMED_SCENS = ["TLS1.2-RSA", "TLS1.0-ECDHE_RSA", "TLS1.2-ECDHE_RSA-GCM",
+                 "TLS1.2-RSA-clientauth", "SSLv3-RSA"]
+
+
+def resumed_case(item):
+    """Malformed input on a connection that *resumed* a cached session
+    (server victim): besides the usual verdict, the cache must not hand the
+    session out again."""
+    sn, seed = item
+    sc = [x for x in S.flavours("thorough") if x.name == sn][0]
+    rec = {"scenario": sn, "n": 0, "fails": [], "sigs": set()}
+
+    def attempt(script, junk_after=False):
+        SEAMS.reset(seed, sn + "/first")
+        cache = W.SessionCache()
+        p0, o0 = S.connect(sc, seed=seed, cache=cache, reset=False)
+        if o0["C"].status != "ok" or o0["S"].status != "ok":
+            return None
+        sess = p0.c.session
+        sid = bytes(sess.sessionID)
+        p0.close("C")
+        p0.read("S", None, 1)
+        p0.close("S")
+        pair = Pair(World())
+        mark_alerts(pair, "S")
+        pup = Puppet(pair.c, script)
+        SEAMS.current = "C"
+        cg = sc.client_gen(pair.c, session=sess)
+        SEAMS.current = "S"
+        sg = sc.server_gen(pair.s, cache=cache)
+        SEAMS.current = "main"
+        try:
+            out = pair.handshake(cg, sg, max_steps=60000)
+        except NotQueueable:
+            return None
+        if junk_after and out["S"].status == "ok":
+            pair.world.c2s.inject({
+                True: b"\x17\x03\x03\x00\x20" + b"\xa5" * 32,
+                "alert": b"\x15\x03\x03\x00\x20" + b"\x5a" * 32,
+                "short": b"\x17\x03\x03\x00\x01\x00"}[junk_after])
+            out = dict(out)
+            out["S"] = pair.read("S", None, 1)
+        return pair, pup, out, cache, sid
+    r = attempt({})
+    if r is None or r[2]["S"].status != "ok" or not r[0].s.resumed:
+        rec["fails"].append(({"kind": "honest-failed", "resumed": True},
+                             "honest resumption failed", "honest"))
+        return rec
+    honest = list(r[1].honest)
+    todo = [("junk-record-after-handshake", {}, True),
+            ("junk-alert-after-handshake", {}, "alert"),
+            ("short-record-after-handshake", {}, "short")]
+    for (i, tok) in honest:
+        if tok in ("ALERT", "APP"):
+            continue
+        if tok == "CCS":
+            todo.append(("skip-CCS", {i: ("skip",)}, False))
+            continue
+        todo.append(("unknown-type@%s" % tok, {i: ("replace", _hs(99, b""))},
+                     False))
+        if tok != "CH":
+            todo.append(("cut@%s" % tok, {i: ("mutate", lambda d: bytes(
+                d[:1] + (len(d) - 5).to_bytes(3, "big") + d[4:-1])
+                if len(d) > 5 else None)}, False))
+            todo.append(("flip-last@%s" % tok, {i: ("mutate", lambda d: bytes(
+                d[:-1]) + bytes([d[-1] ^ 1]))}, False))
+    for (label, script, junk) in todo:
+        r = attempt(script, junk)
+        if r is None:
+            continue
+        pair, pup, out, cache, sid = r
+        rec["n"] += 1
+        sig, fails = judge(pair, out, "S", None, 0, 0)
+        rec["sigs"].add((label.split("@")[0], sig))
+        if junk and out["S"].status == "exc":
+            # (only once the resumed handshake has completed is the session
+            # this connection's; a failed resumption *attempt* leaves the
+            # cache alone, or anybody who saw a session ID could delete it)
+            try:
+                ent = cache[bytearray(sid)]
+            except KeyError:
+                ent = None
+            if ent is not None and ent.resumable:
+                fails.append(({"kind": "cache-entry-resumable-after-"
+                               "failure"},
+                              "the session cache still hands out the "
+                              "session after %r on the resumed "
+                              "connection" % (sig,)))
+        for (k, text) in fails:
+            k = dict(k)
+            k["resumed"] = True
+            rec["fails"].append((k, text, label))
+    rec["sigs"] = sorted(rec["sigs"], key=repr)
+    return rec
+
+
 def dc_case(item):
     """Delegated-credential shapes (from C05) under the C08 oracle: every
     rejection is a fatal alert on the wire, the client closed, the session
@@ -1432,7 +1528,9 @@ def run(res, tier, seed):
         "empty / oversized records, SSLv2 headers; post-handshake: NST, "
         "KeyUpdate, CertificateRequest, PHA flight, heartbeat; every message "
         "replaced / cut with the victim keeping its socket "
-        "(closeSocket=False), alert-on-the-wire oracle; one mutation "
+        "(closeSocket=False), alert-on-the-wire oracle; the abbreviated "
+        "handshake of a resumed connection damaged message by message with "
+        "the session cache inspected afterwards; one mutation "
         "per execution; distinct by (flavour, role, message, field, value)")
     scs = scenarios(tier)
     items = [(i, tier, seed, v) for i in range(len(scs)) for v in ("C", "S")]
@@ -1467,6 +1565,20 @@ def run(res, tier, seed):
     res.section("keep_socket", scenario_roles=len(items), executions=nk,
                 note="closeSocket=False on the victim; alert must be on the "
                      "wire when the failing call returns")
+    nrs = 0
+    for rec in pmap(resumed_case, [(sn, seed) for sn in RESUMED_SCENS],
+                    chunksize=1):
+        nrs += rec["n"]
+        res.count(rec["n"])
+        for s_ in rec["sigs"]:
+            res.outcome(("resumed",) + tuple(s_))
+        for (k, text, label) in rec["fails"]:
+            res.violation(k, {"scenario": rec["scenario"], "mutation": label,
+                              "fail": text, "resumed_connection": True},
+                          {"scenario": rec["scenario"], "resumed": True,
+                           "mutation": label})
+    res.section("resumed_connections", scenarios=RESUMED_SCENS,
+                executions=nrs)
     from . import c05
     ndc = 0
     for r in pmap(dc_case, [(c, seed) for c in c05.dc_cases(tier)]):
